@@ -14,7 +14,7 @@ RULE = ('one case = one scripted peer audited under 7 option sets (colour, -n, -
         '(refused, silent, closed after banner, garbage, truncated KEXINIT, wrong first packet, bad block size), and policy audits (-P) of passing and failing peers.  Oracle: status == 3/2/0 by the '
         'worst finding level visible in the report (algorithm notes by tag, general/security lines by colour); broken handshakes: status not in {0,2,3} and no algorithm lines/lists; policy: status 0 <=> passed, 3 <=> failed.  '
         'A case is non-trivial when at least one option set produced a report/verdict that was compared with the status; distinct = distinct peer specifications')
-REQUIRED = {'empty_entry_before_failure': 4, 'broken_after_rated_banner': 9, 'builtin_policy_runs': 10, 'outdated_builtin_policy_runs': 4, 'status_checks': 200, 'expect3': 10, 'expect2': 5, 'expect0': 3, 'broken_handshakes': 10, 'policy_runs': 10}
+REQUIRED = {'gss_only_failure': 4, 'empty_entry_before_failure': 4, 'broken_after_rated_banner': 9, 'builtin_policy_runs': 10, 'outdated_builtin_policy_runs': 4, 'status_checks': 200, 'expect3': 10, 'expect2': 5, 'expect0': 3, 'broken_handshakes': 10, 'policy_runs': 10}
 ASSUMPTIONS = ['findings are algorithm notes plus failure/warning coloured lines of the general and security sections; (nfo), (rec) and (fin) lines are presentation, not findings',
                'levels of untagged (gen)/(sec) lines are only observable in colour renderings; the expected status of all option sets of a peer is derived from its colour rendering']
 MANIFEST = {
@@ -44,6 +44,8 @@ def cases(tier, seed):
         for cat in mix:
             rng.shuffle(mix[cat])
         cs.append({'kind': 'mix', 'seed': rng.randrange(1 << 30), 'mix': mix, 'unknown': i % 7 == 3, 'probes': i % 3 != 0})
+    for i, forced in enumerate(['/', '+', 'a+/', '/'] * (1 if tier == 'quick' else 6)):
+        cs.append({'kind': 'mix', 'seed': rng.randrange(1 << 30), 'mix': {c_: ['clean'] if i % 2 else ['warn', 'clean'] for c_ in ('kex', 'key', 'enc', 'mac')}, 'unknown': False, 'probes': False, 'gss_fail': forced})
     for i in range(4 if tier == 'quick' else 40):
         cs.append({'kind': 'mix', 'seed': rng.randrange(1 << 30), 'mix': {c_: [['clean'], ['warn', 'clean'], ['clean'], ['warn']][i % 4] for c_ in ('kex', 'key', 'enc', 'mac')}, 'unknown': False, 'probes': i % 2 == 0, 'dup': True})
     for i, cat in enumerate(('enc', 'mac', 'kex', 'key') * (1 if tier == 'quick' else 6)):
@@ -168,6 +170,10 @@ def run_mix(c):
         lists[cat] = lst or [rng.choice(cls[cat]['clean'] or cls[cat]['warn'])]
     if c['unknown']:
         lists[rng.choice(['kex', 'key', 'enc', 'mac'])].append(audit.unknown_name(rng))
+    if c.get('gss_fail'):
+        # the only failure of the peer is a GSS key exchange (looked up through its wildcard entry), with '/' and '+' in the mechanism suffix
+        fams = [x for x in audit.db_names()['kex'] if x.startswith('gss-') and x.endswith('-*') and gen.classify_db('kex', x) == 'fail']
+        lists['kex'] = [x for x in lists['kex'] if x not in cls['kex']['fail']] + [audit.gss_instance(rng, rng.choice(fams), forced=c['gss_fail'])]
     if c.get('dup'):
         # the same names listed twice
         for cat in lists:
@@ -184,12 +190,18 @@ def run_mix(c):
     script = {'banner': 'SSH-2.0-OpenSSH_9.%d' % rng.randint(0, 9), 'kex': audit.sym_kex(lists['kex'], lists['key'], lists['enc'], lists['mac']),
               'hostkeys': gen.hostkeys_for(lists['key']) if c['probes'] else {}, 'gex': {'sizes': [3072, 4096], 'style': 'strict'} if c['probes'] else None}
     viol, counters = [], {}
+    if c.get('gss_fail'):
+        # the only failure of the peer is a GSS key exchange (looked up through its wildcard entry), with '/' and '+' in the mechanism suffix
+        fams = [x for x in audit.db_names()['kex'] if x.startswith('gss-') and x.endswith('-*') and gen.classify_db('kex', x) == 'fail']
+        lists['kex'] = [x for x in lists['kex'] if x not in cls['kex']['fail']] + [audit.gss_instance(rng, rng.choice(fams), forced=c['gss_fail'])]
     if c.get('dup'):
         # the same names listed twice
         for cat in lists:
             lists[cat] = lists[cat] + lists[cat][:2]
     if c.get('empty_before_fail'):
         counters['empty_entry_before_failure'] = 1
+    if c.get('gss_fail'):
+        counters['gss_only_failure'] = 1
     check_optsets(script, viol, counters)
     return viol, counters
 
